@@ -551,6 +551,7 @@ def run(ctx, rep, cases=None):
         history_cases(ctx, rep, [make_history(ctx, 300000 + i) for i in range(ctx.scale(40, 500))])
         order_cases(ctx, rep, [make_order_case(ctx, 400000 + i) for i in range(ctx.scale(24, 300))])
         argtype_cases(ctx, rep, [make_argtype_case(ctx, 500000 + i) for i in range(ctx.scale(40, 400))])
+        argcomp_cases(ctx, rep, [make_argcomp_case(ctx, 600000 + i) for i in range(ctx.scale(24, 240))])
         opaque_histories(ctx, rep)
         opaque_cases(ctx, rep)
 
@@ -1359,6 +1360,8 @@ def as_rep(vals, fam, scalar=False, matrix=False):
     ints = [int(x) for x in vals] if integral else None
     if fam in ("int", "npint", "tint", "fnint") and not integral:
         return None
+    if fam == "bool":
+        return bool(ints[0]) if (scalar and integral and ints[0] in (0, 1)) else None
     shape2 = (lambda l: [l[0:2], l[2:4]]) if matrix else (lambda l: l)
     if fam == "float":
         return fl[0] if scalar else shape2(fl)
@@ -1533,6 +1536,153 @@ def argtype_cases(ctx, rep, cases):
             break
 
 
+# ---------------------------------------------------------------------------------------------
+# integer-typed shapes inside every operation: a primitive given by int tensors / Python ints / bools / 0-d tensors / numpy
+# integers (its own box may come out as an int64 tensor) combined — in BOTH operand orders — with a float partner that
+# protrudes by non-integer amounts; the operation's box must not inherit the integer type
+
+COMP_FAMS = ["tint", "int", "npint", "t64", "np32", "bool", "float"]
+
+
+def make_argcomp_case(ctx, idx):
+    rng = ctx.rng
+    I = lambda lo, hi: Fr(rng.randint(lo, hi))
+    nz = lambda lo, hi: Fr(rng.randint(lo * 8, hi * 8) * 2 + 1, 16)        # never an integer
+    what = rng.choice(["interval", "circle", "sphere", "par", "tri", "interval", "circle"])
+    if what == "interval":
+        lo = Fr(0) if rng.random() < 0.4 else I(-3, 2)
+        args = dict(lb=[lo], ub=[lo + (1 if lo == 0 and rng.random() < 0.6 else I(1, 3))])
+        var = "y"
+        b = Node("interval", "y", [PF([c(lo + nz(-2, 0))]), PF([c(lo + nz(0, 2) + Fr(1, 2))])])
+    elif what == "circle":
+        cc, r = [I(-2, 2), I(-2, 2)], I(1, 3)
+        args = dict(c=cc, r=[r])
+        var = "x"
+        b = Node("circle", "x", [PF([c(cc[0] + r * rng.choice([-1, 1]) + nz(-1, 1) / 4), c(cc[1] + nz(-1, 1))]), PF([c(nz(0, 1) + Fr(1, 4))])])
+    elif what == "sphere":
+        cc, r = [I(-2, 2), I(-2, 2), I(-2, 2)], I(1, 2)
+        args = dict(c=cc, r=[r])
+        var = "z"
+        b = Node("sphere", "z", [PF([c(cc[0] + nz(-1, 1)), c(cc[1] + r * rng.choice([-1, 1])), c(cc[2] + nz(-1, 1))]), PF([c(nz(0, 1) + Fr(1, 4))])])
+    else:
+        while True:
+            o, a_, b_ = [I(-2, 2), I(-2, 2)], [I(-3, 3), I(-3, 3)], [I(-3, 3), I(-3, 3)]
+            if abs((a_[0] - o[0]) * (b_[1] - o[1]) - (a_[1] - o[1]) * (b_[0] - o[0])) >= 2:
+                break
+        args = dict(o=o, c1=a_, c2=b_)
+        var = "x"
+        b = Node("circle", "x", [PF([c(a_[0] + nz(-1, 1) / 2), c(a_[1] + nz(-1, 1) / 2)]), PF([c(nz(0, 1) + Fr(1, 2))])])
+    d = DIM[var]
+    shift = [nz(-2, 2) for _ in range(d)]
+    s_lo = nz(-1, 1)
+    return dict(id=idx, kind="argcomp", mode="argcomp", what=what, var=var, args={k_: [str(x) for x in v_] for k_, v_ in args.items()}, inner=None,
+                partner=b.describe(), shift=[str(x) for x in shift], factor=[str(s_lo), str(s_lo + nz(0, 2) + Fr(1, 2))],
+                pivot=[str(nz(-1, 1)), str(nz(-1, 1))], rot=rng.choice([["3/5", "-4/5", "4/5", "3/5"], ["5/13", "12/13", "-12/13", "5/13"], ["-4/5", "-3/5", "3/5", "-4/5"]]))
+
+
+def argcomp_nodes(cs):
+    """(name, expression with `a` at position `where`) for every operation"""
+    a = argtype_node(cs)
+    b = geomgen.from_json(cs["partner"])
+    f_ = Node("interval", "s", [PF([c(Fr(cs["factor"][0]))]), PF([c(Fr(cs["factor"][1]))])])
+    out = []
+    for op in ("union", "inter", "cut"):
+        out.append((f"a {op} b", Node(op, None, [], [a, b]), "a0"))
+        out.append((f"b {op} a", Node(op, None, [], [b, a]), "a1"))
+    out.append(("a * I", Node("prod", None, [], [a, f_]), "a0"))
+    out.append(("I * a", Node("prod", None, [], [f_, a]), "a1"))
+    out.append(("Translate(a)", Node("translate", cs["var"], [PF([c(Fr(x)) for x in cs["shift"]])], [a]), "inner"))
+    out.append(("Translate(a union b)", Node("translate", cs["var"], [PF([c(Fr(x)) for x in cs["shift"]])], [Node("union", None, [], [a, b])]), "inner-a0"))
+    if DIM[cs["var"]] == 2:
+        out.append(("Rotate(a)", Node("rotate", "x", [PF([c(Fr(x)) for x in cs["rot"]]), PF([c(Fr(x)) for x in cs["pivot"]])], [a]), "inner"))
+    return out
+
+
+def argcomp_cases(ctx, rep, cases):
+    tp = common.use_repo()
+    import torch
+    lines, plan = [], []
+    for cs in cases:
+        ents = []
+        for name, node, where in argcomp_nodes(cs):
+            e = dict(name=name, node=node, where=where, line=len(lines))
+            lines.append(f"bbox {node.tokens()} 1 0")
+            cands = candidate_points(node, {}, ctx.rng, 5)
+            e["cand_line"] = len(lines)
+            for pt in cands:
+                lines.append(f"contains {ATOL} {RTOL} {BATOL} {node.tokens()} {env_tokens(pt)} 0")
+            e["cands"] = cands
+            ents.append(e)
+        plan.append((cs, ents))
+    replies = common.run_driver("C18", lines)
+    for cs, ents in plan:
+        rep.count("mode:argcomp")
+        rep.count("argcomp:" + cs["what"])
+        names = list(cs["args"])
+        combos = [{n_: f for n_ in names} for f in COMP_FAMS] + [{n_: ctx.rng.choice(COMP_FAMS[:5]) for n_ in names} for _ in range(2)]
+        rep.case(dict(argcomp=cs["what"], args=cs["args"], partner=cs["partner"]), True,
+                 sample=dict(primitive=cs["what"], arguments=cs["args"], given_as=COMP_FAMS, partner=geomgen.from_json(cs["partner"]).tokens(),
+                             operations=[e["name"] for e in ents]), kind="argcomp")
+        bad = False
+        for fams in combos:
+            if bad:
+                break
+            try:
+                a_obj = argtype_build(tp, cs, fams)
+            except Exception as ex:  # noqa
+                rep.count("argtype-constructor-raised:" + type(ex).__name__)
+                continue
+            if a_obj is None:
+                continue
+            b_obj = geomgen.from_json(cs["partner"]).to_tp(tp)
+            rep.count("argcomp-family:" + "/".join(sorted(set(fams.values()))))
+            for e in ents:
+                node, where = e["node"], e["where"]
+
+                def build(n_, path):
+                    # the torchphysics object of expression n_, with the integer-typed object substituted for `a`
+                    k = n_.kind
+                    if n_ is argnode:
+                        return a_obj
+                    if k in ("union", "inter", "cut", "prod"):
+                        x, y = build(n_.kids[0], path), build(n_.kids[1], path)
+                        return x + y if k == "union" else x & y if k == "inter" else x - y if k == "cut" else x * y
+                    if k == "translate":
+                        return tp.domains.Translate(build(n_.kids[0], path), n_.pfs[0].py())
+                    if k == "rotate":
+                        return tp.domains.Rotate(build(n_.kids[0], path), n_.pfs[0].py(matrix=True), n_.pfs[1].py())
+                    return n_.to_tp(tp)
+                # locate the node object of `a` inside this expression
+                argnode = {"a0": lambda n_: n_.kids[0], "a1": lambda n_: n_.kids[1], "inner": lambda n_: n_.kids[0],
+                           "inner-a0": lambda n_: n_.kids[0].kids[0]}[where](node)
+                tag = dict(cs, families=fams, operation=e["name"])
+                try:
+                    dom = build(node, None)
+                    box = dom.bounding_box()
+                    bt = torch.as_tensor(box)
+                    bx = [float(x) for x in bt.reshape(-1).tolist()]
+                except Exception as ex:  # noqa
+                    rep.fail(f"bounding_box of `{e['name']}` raised {type(ex).__name__}: {str(ex)[:160]} (a = {cs['what']}({cs['args']}) given as {fams})", tag)
+                    bad = True
+                    break
+                rep.count("argcomp-boxes-judged")
+                want = [Fr(x) for x in replies[e["line"]].split()[1:]]
+                tl = tol_of(want)
+                if len(bx) == len(want) and all(abs(x - float(y)) <= tl for x, y in zip(bx, want)):
+                    continue
+                members = [flat_point(node, pt) for j, pt in enumerate(e["cands"]) if replies[e["cand_line"] + j].split()[0] == "1"]
+                outside = [p_ for p_ in members if len(bx) == 2 * len(p_) and any(float(p_[ax]) < bx[2 * ax] - tl or float(p_[ax]) > bx[2 * ax + 1] + tl for ax in range(len(p_)))]
+                msg = (f"the bounding box of `{e['name']}` with a = {cs['what']}({cs['args']}) given as {fams} (its own box has dtype "
+                       f"{torch.as_tensor(a_obj.bounding_box()).dtype}) and b = {geomgen.from_json(cs['partner']).tokens()} is {bx} (dtype {bt.dtype}); "
+                       f"with a given as floats / exactly it is {[float(x) for x in want]}")
+                if outside:
+                    rep.fail(msg + f"; the point {[float(x) for x in outside[0]]} of the domain (exact membership) lies outside", tag)
+                else:
+                    rep.disagree("drivers/C18.lean bbox: " + msg, tag, bx, [float(x) for x in want])
+                bad = True
+                break
+
+
 def replay(ctx, obj):
     common.use_repo()
     import torch
@@ -1548,6 +1698,8 @@ def replay(ctx, obj):
         order_cases(ctx, rep, [{k_: inp[k_] for k_ in ("id", "kind", "mode", "dom", "pvars", "rows", "k")}])
     elif inp.get("kind") == "argtype":
         argtype_cases(ctx, rep, [{k_: inp[k_] for k_ in ("id", "kind", "mode", "what", "args", "inner")}])
+    elif inp.get("kind") == "argcomp":
+        argcomp_cases(ctx, rep, [{k_: v_ for k_, v_ in inp.items() if k_ not in ("families", "operation")}])
     elif inp.get("kind") == "history":
         history_cases(ctx, rep, [inp])
     elif inp.get("kind") == "opaque-history":
